@@ -111,9 +111,22 @@ fn run_case(case: &Value) -> Value {
         }
     }
     if case["fragment"].as_bool().unwrap_or(false) {
+        if want.contains(&"tokens") {
+            // the token stream load_fragment works on
+            let wrapped = format!(r#"fragment "" {text} /end MODULE"#);
+            if let Ok(Ok((toks, _))) = guarded(|| a2lfile::verif::tokenize(std::path::Path::new(""), &wrapped)) {
+                out["tokens"] = Value::Array(toks.iter().map(|(t, v, l, _)| json!([t, v, l])).collect());
+            }
+        }
         match guarded(|| a2lfile::load_fragment(text, a2ml.clone())) {
             Err(p) => out["panic"] = json!(p),
-            Ok(Ok(_)) => out["ok"] = json!(true),
+            Ok(Ok(module)) => {
+                out["ok"] = json!(true);
+                out["diags"] = json!([]);
+                if want.contains(&"tree") {
+                    out["tree"] = parse_debug(&format!("{module:#?}")).unwrap_or_else(|e| json!({"_parse_error": e}));
+                }
+            }
             Ok(Err(e)) => {
                 out["ok"] = json!(false);
                 out["e"] = err_class(&e);
@@ -150,6 +163,23 @@ fn run_case(case: &Value) -> Value {
             }
             if want.contains(&"tree") {
                 out["tree"] = parse_debug(&format!("{a2l:#?}")).unwrap_or_else(|e| json!({"_parse_error": e}));
+            }
+            if want.contains(&"file") {
+                // A2lFile::write(path, banner) and load(path)
+                let dir = std::env::temp_dir().join(format!("a2lverif_file_{}", std::process::id()));
+                let _ = std::fs::create_dir_all(&dir);
+                let path = dir.join("written.a2l");
+                out["file"] = match guarded(|| {
+                    a2l.write(&path, Some("written by the verification harness")).map_err(|e| e.to_string())?;
+                    let text = std::fs::read_to_string(&path).map_err(|e| e.to_string())?;
+                    let (re, log) = a2lfile::load(&path, a2ml.clone(), strict).map_err(|e| e.to_string())?;
+                    Ok::<_, String>((text.starts_with("/* written by the verification harness */"), re == a2l, log.len()))
+                }) {
+                    Ok(Ok((banner, eq, nlog))) => json!({"ok": true, "banner_first": banner, "model_eq": eq, "diags": nlog}),
+                    Ok(Err(e)) => json!({"ok": false, "error": e}),
+                    Err(p) => json!({"ok": false, "panic": p}),
+                };
+                let _ = std::fs::remove_dir_all(&dir);
             }
             if want.contains(&"write") || want.contains(&"cycle") {
                 match guarded(|| a2l.write_to_string()) {
